@@ -13,7 +13,9 @@ Notation node := N.
 Notation edge := (N * N)%type.
 
 (* ------------------------------------------------------------------------- control *)
-Inductive exn := ValueError | KeyError | TypeError | RuntimeError | IndexError.
+(* BreakSignal and OutOfFuel are not Python exceptions: `break` is modelled as a signal caught by the innermost loop
+   (py_loop_b / py_while), OutOfFuel says that a `while` did not finish within the fuel the caller of the model gave *)
+Inductive exn := ValueError | KeyError | TypeError | RuntimeError | IndexError | PyException | BreakSignal | OutOfFuel.
 Inductive ctl (R : Type) := CNormal | CContinue | CReturn (r : R) | CRaise (e : exn).
 Arguments CNormal {R}. Arguments CContinue {R}. Arguments CReturn {R} r. Arguments CRaise {R} e.
 (* what a call yields: a value, an exception, or falling off the end (Python: None) *)
@@ -46,6 +48,31 @@ Fixpoint py_loop {A} (body : A -> stmt S R) (l : list A) (s : S) : ctl R * S :=
   end.
 Definition py_for {A} (it : S -> list A) (body : A -> stmt S R) : stmt S R :=
   fun s => py_loop body (it s) s.
+(* a `for` whose body contains `break` *)
+Fixpoint py_loop_b {A} (body : A -> stmt S R) (l : list A) (s : S) : ctl R * S :=
+  match l with
+  | [] => (CNormal, s)
+  | x :: l' => match body x s with
+               | (CNormal, s') | (CContinue, s') => py_loop_b body l' s'
+               | (CRaise BreakSignal, s') => (CNormal, s')
+               | r => r
+               end
+  end.
+Definition py_for_b {A} (it : S -> list A) (body : A -> stmt S R) : stmt S R :=
+  fun s => py_loop_b body (it s) s.
+(* `while c: body` with at most `fuel` evaluations of c *)
+Fixpoint py_while (fuel : nat) (c : S -> bool) (body : stmt S R) (s : S) : ctl R * S :=
+  match fuel with
+  | O => (CRaise OutOfFuel, s)
+  | Datatypes.S f =>
+      if c s then
+        match body s with
+        | (CNormal, s') | (CContinue, s') => py_while f c body s'
+        | (CRaise BreakSignal, s') => (CNormal, s')
+        | r => r
+        end
+      else (CNormal, s)
+  end.
 Definition py_outcome (c : ctl R) : result R :=
   match c with CNormal | CContinue => RetNone | CReturn r => Ret r | CRaise e => Exc e end.
 Definition py_run (b : stmt S R) (s : S) : result R :=
@@ -240,10 +267,98 @@ Definition py_in_degree (G : pygraph) (v : node) : Z := py_len (py_in_edges G v)
 
 (* ------------------------------------------------------------------------- result printing (correspondence runs) *)
 Definition exn_code (e : exn) : Z :=
-  match e with ValueError => 0 | KeyError => 1 | TypeError => 2 | RuntimeError => 3 | IndexError => 4 end%Z.
+  match e with ValueError => 0 | KeyError => 1 | TypeError => 2 | RuntimeError => 3 | IndexError => 4 | PyException => 5 | BreakSignal => 6 | OutOfFuel => 7 end%Z.
 Definition enc_Q (q : Q) : list Z := let r := Qred q in [Qnum r; Zpos (Qden r)].
 Definition enc_result {R} (enc : R -> list Z) (r : result R) : list Z :=
   match r with Ret v => 0%Z :: enc v | Exc e => [1%Z; exn_code e] | RetNone => [2%Z] end.
 Definition enc_xq (x : xq) : list Z := match x with NegInf => [1%Z] | Fin q => 0%Z :: enc_Q q end.
 Definition enc_bool (b : bool) : list Z := [if b then 1%Z else 0%Z].
 Definition enc_Z (z : Z) : list Z := [z].
+
+(* ------------------------------------------------------------------------- a caller's graph, and a graph being built *)
+(* the caller's nx.DiGraph as list(G.nodes()) and list(G.edges()); degrees are counted on the edge list
+   (a self-loop counts once as in-edge and once as out-edge, as networkx does) *)
+Record bgraph := mk_bgraph { b_nodes : list node; b_edges : list edge }.
+Definition py_b_in_degree (G : bgraph) (u : node) : Z := py_len (filter (fun e => N.eqb (snd e) u) (b_edges G)).
+Definition py_b_out_degree (G : bgraph) (u : node) : Z := py_len (filter (fun e => N.eqb (fst e) u) (b_edges G)).
+
+(* a fresh nx.DiGraph that the function fills: nodes and edges in insertion order, each kept once
+   (adding an existing node / edge changes nothing; add_edge adds its endpoints first) *)
+Record mgraph := mk_mgraph { m_nodes : list node; m_edges : list edge }.
+Definition py_m_empty : mgraph := mk_mgraph [] [].
+Definition py_m_add_node (g : mgraph) (u : node) : mgraph :=
+  if py_mem N.eqb u (m_nodes g) then g else mk_mgraph (m_nodes g ++ [u]) (m_edges g).
+Definition py_m_add_edge (g : mgraph) (u v : node) : mgraph :=
+  let g' := py_m_add_node (py_m_add_node g u) v in
+  if py_mem edge_eqb (u, v) (m_edges g') then g' else mk_mgraph (m_nodes g') (m_edges g' ++ [(u, v)]).
+Definition py_m_add_nodes_from (g : mgraph) (l : list node) : mgraph := fold_left py_m_add_node l g.
+Definition py_m_add_edges_from (g : mgraph) (l : list edge) : mgraph := fold_left (fun g e => py_m_add_edge g (fst e) (snd e)) l g.
+Definition py_m_has_node (g : mgraph) (u : node) : bool := py_mem N.eqb u (m_nodes g).
+(* G.out_edges(n) / G.in_edges(n): adjacency of n in insertion order *)
+Definition py_m_out_edges (g : mgraph) (u : node) : list edge := filter (fun e => N.eqb (fst e) u) (m_edges g).
+Definition py_m_in_edges (g : mgraph) (u : node) : list edge := filter (fun e => N.eqb (snd e) u) (m_edges g).
+
+Lemma py_m_add_node_edges : forall g u, m_edges (py_m_add_node g u) = m_edges g.
+Proof. intros g u; unfold py_m_add_node; destruct (py_mem N.eqb u (m_nodes g)); reflexivity. Qed.
+Lemma py_m_add_node_nodes_incl : forall g u x, In x (m_nodes g) -> In x (m_nodes (py_m_add_node g u)).
+Proof. intros g u x H; unfold py_m_add_node; destruct (py_mem N.eqb u (m_nodes g)); [exact H | cbn [m_nodes]; apply in_or_app; left; exact H]. Qed.
+Lemma py_m_add_node_has : forall g u, In u (m_nodes (py_m_add_node g u)).
+Proof.
+  intros g u; unfold py_m_add_node; destruct (py_mem N.eqb u (m_nodes g)) eqn:E;
+    [apply py_mem_node_In; exact E | cbn [m_nodes]; apply in_or_app; right; left; reflexivity].
+Qed.
+(* adding an edge that is not there appends it; the endpoints become nodes *)
+Lemma py_m_add_edge_fresh : forall g u v, ~ In (u, v) (m_edges g) -> m_edges (py_m_add_edge g u v) = m_edges g ++ [(u, v)].
+Proof.
+  intros g u v H; unfold py_m_add_edge; cbv zeta. rewrite !py_m_add_node_edges.
+  destruct (py_mem edge_eqb (u, v) (m_edges g)) eqn:E; [apply py_mem_edge_In in E; contradiction | cbn [m_edges]; rewrite ?py_m_add_node_edges; reflexivity].
+Qed.
+Lemma py_m_add_edge_nodes : forall g u v, In u (m_nodes (py_m_add_edge g u v)) /\ In v (m_nodes (py_m_add_edge g u v)) /\
+  forall x, In x (m_nodes g) -> In x (m_nodes (py_m_add_edge g u v)).
+Proof.
+  intros g u v; unfold py_m_add_edge; cbv zeta.
+  assert (A : In u (m_nodes (py_m_add_node (py_m_add_node g u) v))) by (apply py_m_add_node_nodes_incl, py_m_add_node_has).
+  assert (B : In v (m_nodes (py_m_add_node (py_m_add_node g u) v))) by apply py_m_add_node_has.
+  assert (C : forall x, In x (m_nodes g) -> In x (m_nodes (py_m_add_node (py_m_add_node g u) v))) by (intros x Hx; apply py_m_add_node_nodes_incl, py_m_add_node_nodes_incl, Hx).
+  destruct (py_mem edge_eqb (u, v) (m_edges (py_m_add_node (py_m_add_node g u) v))); cbn [m_nodes]; auto.
+Qed.
+Lemma py_m_add_edges_from_fresh : forall l g, NoDup (m_edges g ++ l) -> m_edges (py_m_add_edges_from g l) = m_edges g ++ l.
+Proof.
+  induction l as [|[u v] l IH]; intros g H; cbn [py_m_add_edges_from fold_left fst snd]; [rewrite app_nil_r; reflexivity|].
+  fold (py_m_add_edges_from (py_m_add_edge g u v) l).
+  assert (Hf : ~ In (u, v) (m_edges g)).
+  { intro Hi. apply NoDup_remove_2 in H. apply H. apply in_or_app; left; exact Hi. }
+  rewrite IH; rewrite (py_m_add_edge_fresh g u v Hf); rewrite <- app_assoc; [reflexivity | exact H].
+Qed.
+Lemma py_m_add_edges_from_nodes : forall l g x, In x (m_nodes g) -> In x (m_nodes (py_m_add_edges_from g l)).
+Proof.
+  induction l as [|[u v] l IH]; intros g x H; cbn [py_m_add_edges_from fold_left fst snd]; [exact H|].
+  apply IH. apply (proj2 (proj2 (py_m_add_edge_nodes g u v))), H.
+Qed.
+Lemma py_m_add_nodes_from_edges : forall l g, m_edges (py_m_add_nodes_from g l) = m_edges g.
+Proof.
+  induction l as [|u l IH]; intros g; cbn [py_m_add_nodes_from fold_left]; [reflexivity|].
+  fold (py_m_add_nodes_from (py_m_add_node g u) l). rewrite IH. apply py_m_add_node_edges.
+Qed.
+
+Definition enc_nodes (l : list node) : list Z := map Z.of_N l.
+Definition enc_edges (l : list edge) : list Z := flat_map (fun e => [Z.of_N (fst e); Z.of_N (snd e)]) l.
+
+(* ------------------------------------------------------------------------- an s-t graph object as a decoder sees it *)
+(* G.source, G.sink and, per node, list(G.successors(v)) in networkx' adjacency order *)
+Record sgraph := mk_sgraph { sg_source : node; sg_sink : node; sg_succ : list (node * list node) }.
+Definition py_successors (G : sgraph) (v : node) : list node := py_dict_get N.eqb (sg_succ G) v [].
+
+Definition py_is_empty {A} (l : list A) : bool := match l with [] => true | _ => false end.
+(* l[lo:hi] with Python's treatment of negative and out-of-range bounds (None = omitted) *)
+Definition py_slice_bound (n : Z) (b : option Z) (dflt : Z) : Z :=
+  match b with
+  | None => dflt
+  | Some i => let j := if (i <? 0)%Z then (i + n)%Z else i in Z.max 0 (Z.min n j)
+  end.
+Definition py_slice {A} (l : list A) (lo hi : option Z) : list A :=
+  let n := Z.of_nat (length l) in
+  let a := py_slice_bound n lo 0%Z in let b := py_slice_bound n hi n in
+  firstn (Z.to_nat (b - a)) (skipn (Z.to_nat a) l).
+Definition enc_paths (o : option (list (list node))) : list (list Z) :=
+  match o with None => [[0%Z]] | Some ps => [1%Z] :: map enc_nodes ps end.
